@@ -26,6 +26,10 @@ const (
 	LOnError  = 104 // (bidx 104 n)          onRetryError callback observed with n events
 	LDqOut    = 105 // (1 105 id)            Router.Fail handed the event to the dead-queue output
 	LMaint    = 106 // (0 106 n)             BatcherOptions.MaintenanceFn ran for the n-th time (harness-only)
+	LClock    = 107 // (0 107 us)            the DRIVER's clock (microseconds since the start of the case) at the moment the next
+	//                                       entry of the main batcher (Add / Seal / Take / OutBegin / NotReady) was logged
+	LJitter   = 108 // (0 108 us)            first entry of a clocked case: the largest oversleep of a 1 ms sleeper that ran next to
+	//                                       the case (scheduling latency of this machine right now, measured apart from the batcher)
 )
 
 type label struct {
@@ -133,6 +137,9 @@ type Cfg struct {
 	// optional (carried by the stop tuple): backoff MinRetention in ms and Multiplier in percent (0 = the historical
 	// 1 ms / 1.0), MaintenanceInterval in ms (0 = no MaintenanceFn)
 	RetentionMs, MultPct, MaintMs int
+	// optional (5th element of the stop tuple's list): > 0 = clocked case: the observable carries the driver's clock (LClock
+	// entries) and the measured scheduling latency (LJitter); the value is the base tolerance in ms the model grants per hop
+	ClockSlackMs int
 }
 
 var errSend = errors.New("scripted send failure")
@@ -144,8 +151,9 @@ var errSend = errors.New("scripted send failure")
 //   outplan = ((delayMs failures) ...) indexed by the order in which OutFn is first entered per batch seq
 //   stop = (mode arg)  0: stop after quiescence; 1: Stop() after arg ms, concurrently with the adders;
 //                      2: hold the first adder that seals a batch at the point after mu.Unlock until Stop() was called
-//          arg is a number, or the list (arg retentionMs multiplierPercent maintenanceMs): BackoffOpts.MinRetention /
-//          Multiplier of the retriable batcher (0 = 1 ms / 1.0) and MaintenanceInterval of the main batcher (0 = no hook)
+//          arg is a number, or the list (arg retentionMs multiplierPercent maintenanceMs [clockSlackMs]): BackoffOpts.MinRetention /
+//          Multiplier of the retriable batcher (0 = 1 ms / 1.0), MaintenanceInterval of the main batcher (0 = no hook) and,
+//          when clockSlackMs > 0, a clocked observable (entries LJitter / LClock, see there)
 func RunCase(cs hx.Sx) hx.Sx {
 	obs, _ := RunCaseT(cs)
 	return obs
@@ -171,12 +179,35 @@ func RunCaseT(cs hx.Sx) (hx.Sx, Timing) {
 			}
 			return 0
 		}
-		stopArg, cfg.RetentionMs, cfg.MultPct, cfg.MaintMs = g(0), g(1), g(2), g(3)
+		stopArg, cfg.RetentionMs, cfg.MultPct, cfg.MaintMs, cfg.ClockSlackMs = g(0), g(1), g(2), g(3), g(4)
 	} else {
 		stopArg = int(hx.Int(stop[1]))
 	}
 
 	log := &caseLog{}
+	t0 := time.Now()
+	// scheduling latency of the machine while the case runs: a sleeper independent of the batcher under test
+	var jitter atomic.Int64
+	if cfg.ClockSlackMs > 0 {
+		canaryStop := make(chan struct{})
+		canaryDone := make(chan struct{})
+		go func() {
+			defer close(canaryDone)
+			for {
+				select {
+				case <-canaryStop:
+					return
+				default:
+				}
+				a := time.Now()
+				time.Sleep(time.Millisecond)
+				if d := int64(time.Since(a)-time.Millisecond) / 1000; d > jitter.Load() {
+					jitter.Store(d)
+				}
+			}
+		}()
+		defer func() { close(canaryStop); <-canaryDone }()
+	}
 	mctl := metric.NewCtl("verif", prometheus.NewRegistry(), time.Minute, 0)
 
 	var failMu sync.Mutex
@@ -452,9 +483,18 @@ func RunCaseT(cs hx.Sx) (hx.Sx, Timing) {
 	defer log.mu.Unlock()
 	out := make([]hx.Sx, 0, len(log.labels))
 	tm := Timing{Cfg: cfg}
+	if cfg.ClockSlackMs > 0 {
+		out = append(out, hx.L(hx.I(0), hx.I(LJitter), hx.Z(jitter.Load())))
+	}
 	failedAt := map[[2]int64]time.Time{} // (seq, tries) -> time of the failed RetryResult
 	var firstAdd time.Time               // first Add of the batch being filled (main batcher)
 	for _, l := range log.labels {
+		if cfg.ClockSlackMs > 0 && l.bidx == 0 {
+			switch l.kind {
+			case pipeline.VtBatchAdd, pipeline.VtBatchSeal, pipeline.VtBatchTake, pipeline.VtBatchOutBegin, pipeline.VtBatchNotReady:
+				out = append(out, hx.L(hx.I(0), hx.I(LClock), hx.Z(int64(l.t.Sub(t0)/time.Microsecond))))
+			}
+		}
 		items := []hx.Sx{hx.I(l.bidx), hx.I(l.kind)}
 		for _, a := range l.args {
 			items = append(items, hx.Z(a))
